@@ -66,7 +66,18 @@ def build(s):
         return pd.Series(_nums(s[2]), index=idx, dtype=s[1])
     if k == 'df':           # ['df', [[col, values], ...], index or None]
         return pd.DataFrame({c: _nums(v) for c, v in s[1]}, index=s[2])
+    if k == 'edf':          # ['edf', columns, index, dtype or None]: a frame without cells (no rows and / or no columns)
+        return pd.DataFrame(index=_labels(s[2]), columns=s[1], dtype=s[3])
+    if k == 'eser':         # ['eser', dtype, index kind]: a Series without rows; the index is empty but of kind 'range' / 'object' / 'datetime' / 'float'
+        index = dict(range=None, object=pd.Index([], dtype=object), datetime=pd.DatetimeIndex([]), float=pd.Index([], dtype=float))[s[2]]
+        return pd.Series([], index=index, dtype=s[1])
     raise ValueError('unknown spec %r' % (s,))
+
+
+def _labels(idx):
+    if idx is not None and len(idx) and isinstance(idx[0], str) and idx[0][:2] == '20':
+        return [datetime.datetime.fromisoformat(i) for i in idx]
+    return idx
 
 
 # ----------------------------------------------------------------------------------------------- oracle
@@ -177,9 +188,10 @@ def check_pair(c, sx, sy):
     except Exception as e:      # noqa
         c.check(False, _raise_key(sx, sy), 'eq(%r, %r) raised %r' % (x, y, e), call)
         return None
-    c.check(isinstance(r, (bool, np.bool_)), 'C14:returns-bool', 'eq(%r, %r) returned %r of type %s' % (x, y, r, type(r)), call)
-    c.check(bool(r) == exp, _value_key(sx, sy, exp, reason, in_dict),
-            'eq(%r, %r) = %r, the statement requires %r (%s)' % (x, y, r, exp, reason), call)
+    if not isinstance(r, (bool, np.bool_)):          # messages are built on failure only: the repr of a frame costs more than the comparison
+        c.check(False, 'C14:returns-bool', 'eq(%r, %r) returned %r of type %s' % (x, y, r, type(r)), call)
+    if bool(r) != exp:
+        c.check(False, _value_key(sx, sy, exp, reason, in_dict), 'eq(%r, %r) = %r, the statement requires %r (%s)' % (x, y, r, exp, reason), call)
     return bool(r)
 
 
@@ -192,7 +204,8 @@ def check_reflexive(c, sx):
     except Exception as e:      # noqa
         c.check(False, _raise_key(sx, sx), 'eq(x, x) raised %r for x = %r' % (e, x), call)
         return
-    c.check(bool(r), 'C14:reflexive', 'eq(x, x) = %r for x = %r' % (r, x), call)
+    if not bool(r):
+        c.check(False, 'C14:reflexive', 'eq(x, x) = %r for x = %r' % (r, x), call)
 
 
 def check_symmetry(c, sx, sy, rxy, ryx):
@@ -244,6 +257,24 @@ def base_universe():
          ['df', [['a', [1, 2]], ['b', [3, 4]]], None], ['df', [['a', [1, 3]]], None], ['df', [], None], ['df', [['a', [1]]], None],
          Dd(a=['series', 'int', [1, 2], None]), L(['series', 'float', [1.0, 'nan'], None], nan), T(['df', [['a', [1.0, 'nan']]], None])]
     return u
+
+
+def empty_pandas_universe():
+    """pandas objects without cells - no rows and / or no columns - that differ in column names (also their order, int against str names), index labels
+    (values, length, type), dtype and index kind, the same held by a list / dict, and their neighbours: frames / Series WITH cells on the same labels
+    and the other empty containers.  Index, columns (and type) decide here, there is no cell to look at."""
+    ts = ['2020-01-01T00:00:00', '2020-01-02T00:00:00']
+    e = [['edf', ['a'], None, None], ['edf', ['b'], None, None], ['edf', ['a', 'b'], None, None], ['edf', ['b', 'a'], None, None], ['edf', ['a'], None, 'float'],
+         ['edf', ['a'], None, 'int'], ['edf', [1], None, None], ['edf', ['1'], None, None], ['edf', ['a'], [], 'float'],
+         ['edf', None, [1, 2], None], ['edf', None, [3, 4], None], ['edf', None, [2, 1], None], ['edf', None, ['x', 'y'], None], ['edf', None, [1, 2, 3], None],
+         ['edf', None, [1.0, 2.0], 'float'], ['edf', None, ts, None], ['edf', None, ts[:1], None],
+         ['edf', None, None, None], ['edf', [], [], 'float'], ['df', [], None], ['df', [['a', []]], None], ['df', [['a', []], ['b', []]], None],
+         ['eser', 'float', 'range'], ['eser', 'int', 'range'], ['eser', 'object', 'range'], ['eser', 'float', 'object'], ['eser', 'float', 'datetime'], ['eser', 'float', 'float'],
+         ['series', 'float', [], None]]
+    held = [['list', [e[0]]], ['list', [e[1]]], ['dict', [['k', e[9]]]], ['dict', [['k', e[10]]]], ['tuple', [e[22]]], ['list', [e[22]]]]
+    near = [['df', [['a', [1, 2]]], None], ['df', [['a', [1.0, 'nan']]], [1, 2]], ['df', [['b', [1.0, 'nan']]], [1, 2]], ['series', 'float', [1.0, 'nan'], [1, 2]],
+            ['series', 'float', [1.0, 'nan'], [3, 4]], ['list', []], ['tuple', []], ['dict', []], ['arr', 'float', []], ['arr', 'float', [[]]], ['none'], ['nan']]
+    return e + held + near
 
 
 _ALT = {('i', 1): [['f', 1.0], ['np', 'int64', 1], ['b', True], ['np', 'float64', 1.0], ['i', 2]],
@@ -347,9 +378,11 @@ def run(tier, seed):
     c = Collector('C14', rule='all ordered pairs (incl. a value against a fresh structural copy of itself) and all triples (from the pair matrix) of a fixed universe of %d values: '
                   'None, bools, ints, floats, NaN, strings, datetime/date/Timestamp/datetime64, numpy scalars (float64/float32/int64/bool_, NaN), empty and non-empty list/tuple/dict/Dict/'
                   'dictattr, arrays of several dtypes and shapes (0-d, (n,), (1,n), (n,1), (n,n), object), Series/DataFrames differing in cells/index/columns/length, and dicts/lists holding these; '
+                  'all pairs and triples of %d pandas objects without cells (frames with no rows and / or no columns, empty Series) differing in column names and their order, index labels / length / type, '
+                  'dtype, index kind, held by lists / dicts, next to frames and Series with cells on the same labels and the other empty containers; '
                   'plus %d seeded families of nestings (depth <= 3 over list/tuple/dict/Dict/object-array) each with variants that change one container kind or one leaf, all pairs and triples '
                   'within a family and against a sample of the base universe; in_ on sampled sequences. A pair is non-trivial unless it is settled by two different top-level container types; '
-                  'distinct by (value, value)' % (len(base), len(fams)),
+                  'distinct by (value, value)' % (len(base), len(empty_pandas_universe()), len(fams)),
                   exhaustive=False, scope='fixed universe of %d values: all pairs, all triples; %d nested families: all pairs/triples inside a family' % (len(base), len(fams)))
     names = ['u%d' % i for i in range(len(base))]
     _TAKE[:] = [_sampler(1)]
@@ -358,6 +391,9 @@ def run(tier, seed):
         extra = rng.sample(base, 4 if quick else 8)
         specs = fam + extra
         _run_matrix(c, specs, ['n%d_%d' % (f, i) for i in range(len(specs))])
+    # pandas objects without cells: all pairs (the diagonal is a value against a fresh copy of itself) and triples
+    empties = empty_pandas_universe()
+    _run_matrix(c, empties, ['e%d' % i for i in range(len(empties))])
     # membership built on eq: in_(x, seq) == any(eq(x, s) for s in seq)
     for t in range(150 if quick else 2000):
         sx = rng.choice(base)
